@@ -12,10 +12,14 @@
         The constants below select the CURRENT code when TRUE (all check configurations use TRUE). Each
         FALSE value is a named regression: a behaviour the code once had (fixed in /repo by 8aad5d9,
         efb98fd) or a plausible slip, kept switchable so that, if it comes back, it has a name and a
-        ready counterexample (ConfStore_ifaceshared.cfg, ConfStore_sizerounds.cfg, ConfStore_inplace.cfg
-        must each VIOLATE their invariant; the thorough tier checks that they still do):
+        ready counterexample (ConfStore_ifaceshared.cfg, ConfStore_emptyshared.cfg, ConfStore_sizerounds.cfg,
+        ConfStore_inplace.cfg must each VIOLATE their invariant; the thorough tier checks that they still do):
           IfaceDeep = TRUE      deepClone follows reflect.Interface (OptionalPath.Values is copied)
                     = FALSE     "InterfaceSharedByClone": no Interface case, Values shared with the clone
+          EmptyDeep = TRUE      only NIL slices/maps are returned as they are; an empty one gets its own cell
+                    = FALSE     "EmptyContainerSharedByClone": `if rv.Len() == 0 { return rv }` - an empty but
+                                non-nil map (OptionalPaths after the last path was deleted) or a zero-length
+                                slice with capacity is shared with the clone
           ExactSize = TRUE      StringSize renders exactly ("<n>B" when one decimal of the unit is lossy)
                     = FALSE     "SizeRenderingRounds": bytefmt.ByteSize alone, 1234567 -> "1.2M" -> 1258291
           RedactOnCopy = TRUE   redactCredentials works on a clone of the live configuration
@@ -31,7 +35,7 @@
    placements.                                                                             *)
 EXTENDS VerifCommon
 
-CONSTANTS IfaceDeep, ExactSize, RedactOnCopy,
+CONSTANTS IfaceDeep, EmptyDeep, ExactSize, RedactOnCopy,
           MaxMut                    \* mutations through the copy per behaviour
 
 N     == 16                         \* original cells are 1..N, the clone of cell a is a + N
@@ -119,6 +123,18 @@ SparseHeap ==
          [] a = 14 -> PCell(St([p |-> Sc("dur", "1s"), pp |-> Ptr(0)]))
          [] OTHER  -> Free]
 
+\* a configuration whose last path was deleted through the API: the path maps are empty but not nil,
+\* lists are empty (zero length; the cell is the backing array with its spare capacity)
+EmptyRoot == SparseRoot
+EmptyHeap ==
+    [a \in 1..Top |->
+       CASE a = 2  -> LCell(<<>>)
+         [] a = 3  -> LCell(<<>>)
+         [] a = 5  -> MCell(<<>>)
+         [] a = 7  -> MCell(<<>>)
+         [] a = 13 -> MCell(<<>>)
+         [] OTHER  -> Free]
+
 Exposed == {"g", "gsz", "gp", "gl", "users", "tr", "defs", "paths"}    \* what the API returns (never opt)
 
 \* ---------------------------------------------------------------- reading
@@ -192,7 +208,7 @@ Assign(v, h, p, new) ==
 OpsOf(w, h) ==
     CASE w.k = "s"  -> {"set"}
       [] w.k = "p"  -> IF w.a = 0 THEN {"setnew"} ELSE {"setnil", "setnew"}
-      [] w.k = "l"  -> IF w.a = 0 THEN {} ELSE {"setnil", "append"}
+      [] w.k = "l"  -> IF w.a = 0 THEN {} ELSE {"setnil", "append", "growset"}
       [] w.k = "m"  -> IF w.a = 0 THEN {}
                        ELSE {"setnil", "mapins"} \cup (IF DOMAIN h[w.a].kv = {} THEN {} ELSE {"mapdel"})
       [] w.k = "i"  -> {"setnil"}
@@ -205,30 +221,40 @@ Mutate(v, h, p, op, fresh) ==
          [] op = "setnew" -> Assign(v, [h EXCEPT ![fresh] = PCell(Sc("str", "MUT"))], p, Ptr(fresh))
          \* append beyond the capacity: a new backing array
          [] op = "append" -> Assign(v, [h EXCEPT ![fresh] = LCell(Append(h[w.a].xs, Sc("str", "MUT")))], p, Lst(fresh))
+         \* reslice within the capacity and set the new element: a write into the SAME backing array
+         [] op = "growset" -> [v |-> v, h |-> [h EXCEPT ![w.a].xs = Append(@, Sc("str", "MUT"))]]
          [] op = "mapins" -> [v |-> v, h |-> [h EXCEPT ![w.a].kv =
                                  [key \in DOMAIN @ \cup {"zz"} |-> IF key = "zz" THEN Sc("str", "MUT") ELSE @[key]]]]
          [] op = "mapdel" -> LET d == CHOOSE key \in DOMAIN h[w.a].kv : TRUE
                              IN [v |-> v, h |-> [h EXCEPT ![w.a].kv = [key \in DOMAIN @ \ {d} |-> @[key]]]]
 
 \* ---------------------------------------------------------------- layer 1: deepClone
-RECURSIVE Relabel(_)
-Relabel(v) ==
+\* is the slice/map at address a of zero length
+EmptyAt(h, a) == IF h[a].c = "l" THEN Len(h[a].xs) = 0 ELSE IF h[a].c = "m" THEN DOMAIN h[a].kv = {} ELSE FALSE
+\* does deepClone give the container at address a a cell of its own
+Copied(h, a) == EmptyDeep \/ ~EmptyAt(h, a)
+
+RECURSIVE Relabel(_, _)
+Relabel(v, h) ==
     CASE v.k = "s"  -> v
-      [] v.k = "st" -> [v EXCEPT !.f = [n \in DOMAIN v.f |-> Relabel(v.f[n])]]
-      [] v.k \in {"p", "l", "m"} -> IF v.a = 0 THEN v ELSE [v EXCEPT !.a = v.a + N]
-      [] v.k = "i"  -> IF IfaceDeep THEN [v EXCEPT !.x = Relabel(v.x)]             \* case reflect.Interface
+      [] v.k = "st" -> [v EXCEPT !.f = [n \in DOMAIN v.f |-> Relabel(v.f[n], h)]]
+      [] v.k = "p"  -> IF v.a = 0 THEN v ELSE [v EXCEPT !.a = v.a + N]
+      [] v.k \in {"l", "m"} -> IF v.a = 0 THEN v                                   \* if rv.IsNil()
+                               ELSE IF Copied(h, v.a) THEN [v EXCEPT !.a = v.a + N]
+                               ELSE v                                              \* regression: if rv.Len() == 0 { return rv }
+      [] v.k = "i"  -> IF IfaceDeep THEN [v EXCEPT !.x = Relabel(v.x, h)]          \* case reflect.Interface
                        ELSE v                                                     \* regression: default: return rv
 
-RelabelCell(c) ==
-    CASE c.c = "p" -> [c EXCEPT !.x = Relabel(c.x)]
-      [] c.c = "l" -> [c EXCEPT !.xs = [i \in 1..Len(c.xs) |-> Relabel(c.xs[i])]]
-      [] c.c = "m" -> [c EXCEPT !.kv = [key \in DOMAIN c.kv |-> Relabel(c.kv[key])]]
+RelabelCell(c, h) ==
+    CASE c.c = "p" -> [c EXCEPT !.x = Relabel(c.x, h)]
+      [] c.c = "l" -> [c EXCEPT !.xs = [i \in 1..Len(c.xs) |-> Relabel(c.xs[i], h)]]
+      [] c.c = "m" -> [c EXCEPT !.kv = [key \in DOMAIN c.kv |-> Relabel(c.kv[key], h)]]
       [] OTHER     -> c
 
 CloneOf(v, h) ==
     LET R == Reach(v, h, IfaceDeep)
-    IN [v |-> Relabel(v),
-        h |-> [a \in DOMAIN h |-> IF a > N /\ a <= 2 * N /\ (a - N) \in R THEN RelabelCell(h[a - N]) ELSE h[a]]]
+    IN [v |-> Relabel(v, h),
+        h |-> [a \in DOMAIN h |-> IF a > N /\ a <= 2 * N /\ (a - N) \in R THEN RelabelCell(h[a - N], h) ELSE h[a]]]
 
 \* ---------------------------------------------------------------- layer 1: Get / WriteBack
 ExposedPart(v) == St([n \in Exposed |-> v.f[n]])
@@ -271,6 +297,7 @@ NoView == [k |-> "nil"]
 Init ==
     /\ \/ live = FullRoot /\ heap = FullHeap
        \/ live = SparseRoot /\ heap = SparseHeap
+       \/ live = EmptyRoot /\ heap = EmptyHeap
     /\ copy = Ptr(0) /\ mode = "idle" /\ snap = Mat(live, heap)
     /\ view = NoView /\ written = NoView /\ nmut = 0
 
@@ -307,7 +334,7 @@ WriteBack ==
     /\ UNCHANGED <<heap, live, copy, snap, view, nmut>>
 
 Next == \/ Clone \/ Get \/ WriteBack
-        \/ \E p \in Pos(copy, heap) : \E op \in {"set", "setnil", "setnew", "append", "mapins", "mapdel"} : MutateCopy(p, op)
+        \/ \E p \in Pos(copy, heap) : \E op \in {"set", "setnil", "setnew", "append", "growset", "mapins", "mapdel"} : MutateCopy(p, op)
 Spec == Init /\ [][Next]_vars
 
 \* ---------------------------------------------------------------- layer 2: the statements
